@@ -42,10 +42,13 @@ import (
 //   R1  per NUMA cell, what live NON-reserve pods hold never exceeds the zone's capacity       C06:rsv-live-over-capacity
 //   R2  an allocation hands out exactly the request, on hinted nodes only                      C06:numa-sum / C06:numa-outside-hint
 //   R3  the ledger cell = sum of the recorded amounts of reserve pods and live pods            C06:ledger-numa
-// Histories in which a reservation OTHER than the nominated one is over-used by its owners are generated only with
-// VERIF_C06_RSVOTHER=1 (see props/C06.json level_note).
+// Histories in which a reservation OTHER than the nominated one (unmatched, or matched but not nominated) is over-used by
+// its owners while a pod is scheduled are generated in every 8th random case (VERIF_C06_RSVOTHER=0 turns them off): the
+// unchanged tree violates R1 there (open known finding).  R1 failures on a cell on which such a step happened carry the
+// fingerprint C06:rsv-live-over-capacity:other-reservation-overused; everything else - in particular every history in
+// which only the NOMINATED reservation is over-used - is plain C06:rsv-live-over-capacity.
 
-var c06RsvOther = os.Getenv("VERIF_C06_RSVOTHER") == "1"
+var c06RsvOther = os.Getenv("VERIF_C06_RSVOTHER") != "0"
 
 type c06Rsv struct {
 	uid    int
@@ -78,6 +81,7 @@ func TestVerifC06Rsv(t *testing.T) {
 
 func c06RsvCase(t *testing.T, h *vHarness, r *vRand, idx int) {
 	directed := idx < 4
+	other := r.Chance(1, 8) && c06RsvOther && !directed // this case may over-use reservations other than the nominated one
 	ids := [][]int{{0}, {0, 1}, {0, 2}}[r.Intn(3)]
 	cores, threads := r.Range(2, 4), r.Range(1, 2)
 	if directed {
@@ -180,6 +184,22 @@ func c06RsvCase(t *testing.T, h *vHarness, r *vRand, idx int) {
 		}
 		return sb.String()
 	}
+	taintedCell := map[int]bool{} // cells on which a pod was scheduled while a non-nominated reservation was over-used
+	overUsedCells := func(x *c06Rsv) []int {
+		sum := map[int]int64{}
+		for u := range x.owners {
+			for k, v := range rec[u] {
+				sum[k] += v
+			}
+		}
+		var out []int
+		for k, v := range sum {
+			if v > rec[x.uid][k] {
+				out = append(out, k)
+			}
+		}
+		return out
+	}
 	overUsed := func(x *c06Rsv) bool {
 		sum := map[int]int64{}
 		for u := range x.owners {
@@ -214,7 +234,11 @@ func c06RsvCase(t *testing.T, h *vHarness, r *vRand, idx int) {
 		}
 		for _, k := range c06SortedCellKeys(live) {
 			if live[k] > capCell[k] {
-				h.Fail("C06:rsv-live-over-capacity", "%s: NUMA node %d dim %d: live pods hold %d of %d (reservations %s; recorded %v)",
+				fp := "C06:rsv-live-over-capacity"
+				if taintedCell[k] {
+					fp += ":other-reservation-overused"
+				}
+				h.Fail(fp, "%s: NUMA node %d dim %d: live pods hold %d of %d (reservations %s; recorded %v)",
 					what, k/16, k%16, live[k], capCell[k], rsvBlock(rsvs), rec)
 				break
 			}
@@ -270,6 +294,16 @@ func c06RsvCase(t *testing.T, h *vHarness, r *vRand, idx int) {
 		fmt.Fprintf(&sb, " %s %s %d", rsvBlock(matched), rsvBlock(unmatched), nom)
 		h.Op("%s", sb.String())
 
+		for _, list := range [][]*c06Rsv{matched, unmatched} {
+			for _, x := range list {
+				if x != nominated {
+					for _, k := range overUsedCells(x) {
+						taintedCell[k] = true
+						h.Tag("rsv:other-reservation-overused")
+					}
+				}
+			}
+		}
 		cycleState := framework.NewCycleState()
 		var filterOK, reserveOK bool
 		var state *preFilterState
@@ -381,7 +415,7 @@ func c06RsvCase(t *testing.T, h *vHarness, r *vRand, idx int) {
 		// existing reservations with owners are what the reservation plugin hands on as unmatched
 		var um []*c06Rsv
 		for _, x := range rsvs {
-			if len(x.owners) > 0 && (c06RsvOther || !overUsed(x)) {
+			if len(x.owners) > 0 && (other || !overUsed(x)) {
 				um = append(um, x)
 			}
 		}
@@ -447,7 +481,7 @@ func c06RsvCase(t *testing.T, h *vHarness, r *vRand, idx int) {
 	for s := 0; s < steps; s++ {
 		// a reservation other than the nominated one must not be over-used unless the gate is open
 		var forced *c06Rsv
-		if !c06RsvOther {
+		if !other {
 			for _, x := range rsvs {
 				if overUsed(x) {
 					forced = x
